@@ -205,8 +205,11 @@ def install(fault=None):
     # ---- fault injection (C06): interrupt at the n-th low-level write of
     # the output renderer, as a SIGINT arriving at that point would
     fault = os.environ.get('VERIF_FAULT', '')
-    if fault.startswith('outwrite:'):
+    if fault.startswith('outwrite:') or fault.startswith('oserror:'):
+        # outwrite:n - KeyboardInterrupt at the n-th low-level write;
+        # oserror:n  - a transient OSError (ENOSPC) there, once
         nth = int(fault.split(':')[1])
+        fkind = fault.split(':')[0]
         state = {'n': 0, 'armed': False}
         real_ws = nodeio.write_smtlib
 
@@ -219,6 +222,11 @@ def install(fault=None):
                 if state['armed']:
                     state['n'] += 1
                     if state['n'] == nth:
+                        if fkind == 'oserror':
+                            import errno
+                            emit('fault', kind='OSError', at=nth)
+                            raise OSError(errno.ENOSPC,
+                                          'No space left on device')
                         emit('fault', kind='KeyboardInterrupt', at=nth)
                         raise KeyboardInterrupt()
                 return self.f.write(data)
